@@ -297,6 +297,19 @@ pub fn configs(thorough: bool) -> Vec<Cfg> {
             }
         }
     }
+    // the jointly varied chains again with the order values at the ends of their type
+    // (1, 2, 3 -> 0, 7, u32::MAX: a monotone renaming, nothing else may change)
+    let ext = |o: u32| match o {
+        1 => 0,
+        2 => 7,
+        _ => u32::MAX,
+    };
+    let extreme: Vec<Cfg> = v
+        .iter()
+        .filter(|c| c.preps.len() <= 2 && c.checks.len() <= 2 && c.stats.len() <= 2)
+        .map(|c| Cfg { preps: c.preps.iter().map(|o| ext(*o)).collect(), checks: c.checks.iter().map(|(o, r)| (ext(*o), *r)).collect(), stats: c.stats.iter().map(|o| ext(*o)).collect(), ..c.clone() })
+        .collect();
+    v.extend(extreme);
     // every chain again with a business error traced on the admitted entry
     let traced: Vec<Cfg> = v.iter().filter(|c| !c.checks.iter().any(|x| matches!(x.1, Res::BlockFlow | Res::BlockOther))).map(|c| Cfg { traced_error: true, ..c.clone() }).collect();
     v.extend(traced);
